@@ -1033,19 +1033,11 @@ impl<T: PackedInt> IntVec<T> {
         let range = max_val - min_val;
         let bit_width = BitOps::compute_bit_width(range);
 
-        // For small datasets with small ranges, use direct MinMax (advanced pattern)
-        if bit_width <= 16 || len <= 1000 {
-            return CompressionStrategy::MinMax { min_val, bit_width };
-        }
-
-        // For slightly larger small datasets, use optimized block compression
-        // Use 64 blockUnits (not 128) for better small dataset performance
-        CompressionStrategy::BlockBased {
-            block_size: BlockSize::Block64,  // 🚀 64 units for small data
-            offset_width: bit_width.min(8),  // Limit offset width for efficiency
-            sample_width: 4,                 // Fixed small sample width
-            is_sorted,                       // Use actual sorted detection
-        }
+        // MinMax is always lossless.  (The former BlockBased branch for len > 1000 used fixed widths
+        // offset_width = min(bit_width, 8), sample_width = 4 that do not depend on the data and lost every
+        // value whose block offset / sample needs more bits; block widths must come from analyze_block_based.)
+        let _ = (is_sorted, len);
+        CompressionStrategy::MinMax { min_val, bit_width }
     }
 
     /// 🚀 BULK-OPTIMIZED: Fast strategy analysis for bulk construction
